@@ -382,7 +382,7 @@ Proof.
            ++ intros Hs. assert (Hn1 : 1 <= Z.to_nat n) by lia. apply (pull_nonempty _ _ _ _ _ Hs Hn1 P).
            ++ exists c. split; [apply (pull_spec _ _ _ _ _ P)|]. cbn. now rewrite !app_nil_r.
         -- injection H as <- <-. refine (conj Ek (conj _ (conj (fun h => h) _))); [discriminate|].
-           exists []. cbn. rewrite Eb. reflexivity.
+           exists []. split; [reflexivity|]. cbn. rewrite ?Eb. reflexivity.
       * destruct (pull KObject default_max (src s)) as [[c r0]|] eqn:P.
         -- pose proof (pull_spec _ _ _ _ _ P) as Hc.
            assert (Hne : chunks_nonempty (src s) -> chunks_nonempty r0)
@@ -393,7 +393,7 @@ Proof.
            ++ refine (conj eq_refl (conj _ (conj Hne _))); [discriminate|].
               exists c. split; [exact Hc|]. cbn. now rewrite !app_nil_r.
         -- injection H as <- <-. refine (conj Ek (conj _ (conj (fun h => h) _))); [discriminate|].
-           exists []. cbn. rewrite Eb. reflexivity.
+           exists []. split; [reflexivity|]. cbn. rewrite ?Eb. reflexivity.
     + injection H as <- <-. cbn [knd src buf consumed_of].
       refine (conj eq_refl (conj _ (conj (fun h => h) _))); [discriminate|].
       exists []. split; [reflexivity|]. rewrite !app_nil_r. apply firstn_cut_split.
@@ -523,7 +523,7 @@ Proof.
   { destruct o; try reflexivity. cbn [step] in H. injection H as _ <-.
     destruct F as [F|[F|[F|F]]]; discriminate. }
   assert (Hcons : consumed_of o r = []).
-  { destruct F as [->|[->|[->|->]]]; reflexivity. }
+  { destruct F as [ -> | [ -> | [ -> | -> ] ] ]; reflexivity. }
   rewrite Hfed, Hcons in Hb. cbn [app] in Hb.
   refine (conj Hcons (conj _ _)).
   - rewrite <- Hb, Hc, app_assoc. reflexivity.
@@ -652,6 +652,8 @@ Qed.
 (* non-vacuity and boundary witnesses (a=97 b=98 ;=59 \n=10)                                        *)
 (* ------------------------------------------------------------------------------------------------ *)
 
+Local Open Scope Z_scope.
+
 (* the delimiter ";\n" straddles two chunks: found thanks to offset = |buf| - |d| + 1 *)
 Example ex_until_straddle :
   step (init KObject [[97; 59]; [10; 98]]) (Until [59; 10] 10%Z)
@@ -691,6 +693,7 @@ Proof. vm_compute. reflexivity. Qed.
 Example ex_conservation_run :
   let s := init KByte [[97; 59]; [10; 98; 98]; [59]] in
   let ops := [Until [59; 10] 8%Z; Feed [97]; Receive 2%Z; Exactly 3%Z; Until [59] 2%Z] in
-  consumed_run s ops = [97; 59; 10; 98; 98] /\ arrived_run s ops = [97; 59; 10; 98; 98; 97; 59] /\
-  buf (final step s ops) = [97; 59].
+  consumed_run s ops = [97; 59; 10; 98; 98; 97; 59] /\ arrived_run s ops = [97; 59; 10; 98; 98; 97; 59] /\
+  received_run s ops = [97; 59; 10; 98; 98; 59] /\
+  buf (final step s ops) = [] /\ src (final step s ops) = [].
 Proof. vm_compute. auto. Qed.
